@@ -128,7 +128,12 @@ def generate(rng, tier: str, index: int) -> dict:
             cmds.append({'k': 'ack', 'mode': rng.choice(['enable', 'disable', 'silence', 'enable'])})
         elif r < 0.9:
             subs = [{'op': rng.choice(['ann', 'ann', 'wd']), 'route': {'p': rng.choice(prefixes), 'pid': None, 'nh': '10.0.0.9', 'v': rng.randint(0, 2)}} for _ in range(rng.randint(2, 4))]
-            cmds.append({'k': 'group', 'sel': gen_selector(rng, nbrs), 'subs': subs})
+            if rng.chance(0.4):
+                # a member that parses but cannot be announced (no next hop), one that does not parse, an unknown action:
+                # each must leave every RIB alone while the other members are served
+                bad = rng.choice([f'announce route 10.78.{len(cmds) % 250}.0/24 med 100', f'announce route 10.78.{len(cmds) % 250}.0/33 next-hop 10.0.0.9', f'frobnicate route 10.78.{len(cmds) % 250}.0/24 next-hop 10.0.0.9'])
+                subs.insert(rng.randint(0, len(subs)), {'op': 'bad', 'text': bad})
+            cmds.append({'k': rng.choice(['group', 'group', 'mgroup']), 'sel': gen_selector(rng, nbrs), 'subs': subs})
         elif r < 0.94:
             cmds.append({'k': 'long', 'n': rng.choice([5000, 20000, 70000])})
         else:
@@ -196,18 +201,33 @@ def build_commands(plan: dict):
             else:
                 ack = False
                 acked = False
-        elif k == 'group':
+        elif k in ('group', 'mgroup'):
             sel = selected(c['sel'], nbrs)
             parts = []
             for s in c['subs']:
+                if s['op'] == 'bad':
+                    parts.append(s['text'])
+                    continue
                 r = dict(s['route'])
                 if s['op'] == 'wd':
                     r['v'] = None
                 parts.append(('announce ' if s['op'] == 'ann' else 'withdraw ') + RW.route_text(r, variants))
+            has_bad = any(s['op'] == 'bad' for s in c['subs'])
+            good = [s for s in c['subs'] if s['op'] != 'bad']
+            if k == 'mgroup':
+                # the multi-line form: bare members are buffered (one acknowledgement each) and served, for every neighbor, by `group end`
+                out.append({'text': 'group start', 'expect': 'done', 'effects': [], 'acked': acked, 'k': 'mgroup-start'})
+                for p_ in parts:
+                    out.append({'text': p_, 'expect': None, 'effects': [], 'acked': acked, 'k': 'mgroup-member'})
+                text = 'group end'
+                expect = None if has_bad else 'done'
+                effects = [(nb['idx'], s['op'], s['route']) for s in good for nb in nbrs]
+                out.append({'text': text, 'expect': expect, 'effects': effects, 'acked': acked, 'k': 'mgroup-end'})
+                continue
             text = f'peer {sel_text(c["sel"])} group ' + ' ; '.join(parts)
             if sel:
-                expect = 'done'
-                effects = [(i, s['op'], s['route']) for s in c['subs'] for i in sel]
+                expect = None if has_bad else 'done'
+                effects = [(i, s['op'], s['route']) for s in good for i in sel]
             else:
                 expect = 'error'
         elif k == 'long':
